@@ -41,6 +41,32 @@ def poolHypB (t : ObjectTree) (handle : Nat) : Bool :=
     (live t x || (slot t x).name.b0 == 0) &&
     (!live t x || (slot t x).opcode != opScope || (slot t x).tableHandle != handle)
 
+/-- the `Method` `m` is complete: exactly three arguments — a childless name-path object, a childless byte constant (the
+flags) and a scope block, each with its table row (`MK3` in `Proof/AmlMethodInv.lean`) -/
+def methodOKB (t : ObjectTree) (m : Nat) : Bool :=
+  let k1 := Fi t m
+  let k2 := Nx t k1
+  let k3 := Nx t k2
+  live t k1 && live t k2 && live t k3 &&
+  (match (slot t k2).value with | .u64 _ => true | _ => false) &&
+  Fi t k1 == INV && Fi t k2 == INV &&
+  (slot t k1).opcode == opIntNamePath && (slot t k2).opcode == opBytePrefix && (slot t k3).opcode == opIntScopeBlock &&
+  (slot t k1).infoIndex == pOpcodeTableIndex opIntNamePath true && (slot t k2).infoIndex == pOpcodeTableIndex opBytePrefix true &&
+  (slot t k3).infoIndex == pOpcodeTableIndex opIntScopeBlock true && (slot t m).infoIndex == pOpcodeTableIndex opMethod true &&
+  Nx t k3 == INV && C13.P t m != INV
+
+/-- the extra pool hypotheses of `C12.parse_prefix_first_block` / `C12.parse_no_panic_unless_block_succeeds`: every live
+`Method` of the pool is complete, every unresolved name-or-call object is attached and holds a `[]byte`, and the root
+carries the table row of a scope block -/
+def methodsOKB (t : ObjectTree) : Bool :=
+  ((List.range t.pool.size).all fun m => !live t m || (slot t m).opcode != opMethod || methodOKB t m) &&
+  ((List.range t.pool.size).all fun x => !live t x || (slot t x).opcode != opIntNamePathOrMethodCall ||
+    (C13.P t x != INV && (match (slot t x).value with | .bytes _ _ => true | _ => false))) &&
+  (slot t 0).infoIndex == pOpcodeTableIndex opIntScopeBlock true
+
+/-- the table row `i` is a deferred one (`pOpFlagDeferParsing`) -/
+def deferB (i : Nat) : Bool := match opFlags i with | some fl => hasFlag fl flagDeferParsing | none => false
+
 /-- `CallShape` -/
 def callShapeB (s : PState) : Bool :=
   (List.range s.tree.pool.size).all fun x =>
@@ -131,26 +157,38 @@ def auditDeferredLoop (d : Bytes) (fuel : Nat) : Nat → Nat → PState → List
           | some a => auditDeferredLoop d fuel f (slot s1.tree a).nextSiblingIndex s1 acc1
 end
 
+/-- some attached object of `s` with a deferred table row is parsed successfully by `parseDeferred`
+(`F.BlockSucceeds` in `Proof/AmlPrefixBlock.lean`) -/
+def blockSucceedsB (d : Bytes) (fuel : Nat) (s : PState) : Bool :=
+  (List.range s.tree.pool.size).any fun obj =>
+    live s.tree obj && C13.P s.tree obj != INV && deferB (slot s.tree obj).infoIndex &&
+    (match parseDeferred d fuel obj s with | .ok (.ok, _) => true | _ => false)
+
 /-- `ParseAML` stage by stage (the same calls in the same order as `parseAMLBody`), collecting the names of the
 shape hypotheses that do not hold where a theorem assumes them: `MergeInv` after a first pass that did not fail,
 the hypotheses of the per-block theorem in front of every deferred block (one `#block` marker per block that was
 checked), `CallShape` before `resolveMethodCalls` -/
 def shapeAudit (d : Bytes) (fuel handle : Nat) (s : PState) : List String :=
   -- a marker (statistic): do the pool hypotheses of the theorem that derives `MergeInv` hold for this table?
-  let f0 := [if poolHypB s.tree handle then "#pool-hyp-holds" else "#pool-hyp-fails"]
+  let f0 := [if poolHypB s.tree handle then "#pool-hyp-holds" else "#pool-hyp-fails",
+             if methodsOKB s.tree then "#methods-hyp-holds" else "#methods-hyp-fails"]
+  -- a marker (statistic): is the run covered by `C12.parse_no_panic_unless_block_succeeds`?
+  let hyp := poolHypB s.tree handle && methodsOKB s.tree
+  let cov := fun (c : Bool) => [if hyp && c then "#whole-parse-covered" else "#whole-parse-open"]
   match (do init d handle; scopeEnter 0; parseObjectList d fuel fuel : P PRes) s with
   | .error _ => f0
   | .ok (r, s1) =>
-    if r = .failed then f0 else
+    if r = .failed then f0 ++ cov true else
     let f1 := f0 ++ (if mergeInvB d s1 then [] else ["MergeInv-after-first-pass"])
     match connectNamedObjArgs d fuel 0 s1 with
     | .error _ => f1
     | .ok (r2, s2) =>
-      if r2 ≠ .ok then f1 else
+      if r2 ≠ .ok then f1 ++ cov true else
       match resolveLoopPasses d fuel fuel { s2 with resolvePasses := 1 } with
       | .error _ => f1
       | .ok (b3, s3) =>
-        if !b3 then f1 else
+        if !b3 then f1 ++ cov true else
+        let f1 := f1 ++ cov (!blockSucceedsB d fuel s3)
         match auditDeferredBlocks d fuel fuel 0 s3 [] with
         | .error _ => f1
         | .ok (r4, s4, f4) =>
